@@ -340,6 +340,181 @@ def edif_design_sites(t, sp=None):
     return out
 
 
+
+# texts that must be tried for every format in every tier: nothing, blanks, only a comment
+EDGE_TEXTS = {
+    "edif": [("empty", ""), ("blank", " \n\t \n"), ("comment_only", '(comment "nothing else")'), ("string_only", '"s"')],
+    "verilog": [("empty", ""), ("blank", " \n\t \n"), ("comment_only", "// nothing else\n"), ("block_comment_only", "/* nothing else */")],
+    "eblif": [("empty", ""), ("blank", " \n\t \n"), ("comment_only", "# nothing else\n"), ("comment_no_newline", "# nothing else")],
+}
+
+# hand-written EDIF whose scopes overlap on purpose: instances of one cell are port-compatible with
+# instances of another, two libraries declare different cells with the same interface
+EDIF_SCOPES = """(edif scopes
+  (edifVersion 2 0 0)
+  (edifLevel 0)
+  (keywordMap (keywordLevel 0))
+  (library prims
+    (edifLevel 0)
+    (technology (numberDefinition))
+    (cell INV (cellType GENERIC)
+      (view netlist (viewType NETLIST)
+        (interface (port I (direction INPUT)) (port O (direction OUTPUT)))))
+    (cell BUF2 (cellType GENERIC)
+      (view netlist (viewType NETLIST)
+        (interface (port I (direction INPUT)) (port O (direction OUTPUT)) (port (array (rename D "D[1:0]") 2) (direction INPUT))))))
+  (library work
+    (edifLevel 0)
+    (technology (numberDefinition))
+    (cell sub (cellType GENERIC)
+      (view netlist (viewType NETLIST)
+        (interface (port a (direction INPUT)) (port y (direction OUTPUT)) (port s (direction INPUT)))
+        (contents
+          (instance u_inv (viewRef netlist (cellRef INV (libraryRef prims))))
+          (instance u_spare (viewRef netlist (cellRef INV (libraryRef prims))))
+          (net a (joined (portRef a) (portRef I (instanceRef u_inv)) (portRef I (instanceRef u_spare))))
+          (net y (joined (portRef y) (portRef O (instanceRef u_inv)))))))
+    (cell top (cellType GENERIC)
+      (view netlist (viewType NETLIST)
+        (interface (port a (direction INPUT)) (port y (direction OUTPUT)) (port t (direction INPUT)))
+        (contents
+          (instance u_sub (viewRef netlist (cellRef sub)))
+          (instance u_buf (viewRef netlist (cellRef BUF2 (libraryRef prims))))
+          (net a (joined (portRef a) (portRef a (instanceRef u_sub))))
+          (net m (joined (portRef y (instanceRef u_sub)) (portRef I (instanceRef u_buf))))
+          (net d (joined (portRef t) (portRef (member D 1) (instanceRef u_buf))))
+          (net y (joined (portRef y) (portRef O (instanceRef u_buf))))))))
+  (design top (cellRef top (libraryRef work))))
+"""
+
+
+def _decl_name(tok, j):
+    """identifier of the nameDef starting at token j: atom | ( rename id .. ) | ( array nameDef .. )"""
+    if j >= len(tok):
+        return None
+    if tok[j] != "(":
+        return tok[j] if tok[j] != ")" else None
+    if j + 2 < len(tok) and tok[j + 1].lower() == "rename":
+        return tok[j + 2]
+    if j + 2 < len(tok) and tok[j + 1].lower() == "array":
+        return _decl_name(tok, j + 2)
+    return None
+
+
+def edif_scopes(t, sp=None):
+    """Independent token scan: which library / cell every token sits in, and what each declares.
+    -> (where: list of (lib, cell) names per token, libs: {lib: {cell: {"ports": [...], "insts": {name: (cellref, libref)}}}})"""
+    sp = sp or spans_edif(t)
+    tok = [t[a:b] for a, b in sp]
+    where = []
+    libs = {}
+    depth = 0
+    lib = cell = None
+    lib_d = cell_d = None
+    for i, x in enumerate(tok):
+        if x == "(":
+            depth += 1
+            k = tok[i + 1].lower() if i + 1 < len(tok) else ""
+            if k in ("library", "external") and lib is None:
+                lib, lib_d = _decl_name(tok, i + 2), depth
+                libs.setdefault(lib.lower() if lib else lib, {})
+            elif k == "cell" and lib is not None and cell is None:
+                cell, cell_d = _decl_name(tok, i + 2), depth
+                libs[lib.lower()].setdefault(cell.lower() if cell else cell, {"ports": [], "insts": {}})
+            elif k == "port" and cell is not None:
+                n = _decl_name(tok, i + 2)
+                if n:
+                    libs[lib.lower()][cell.lower()]["ports"].append(n.lower())
+            elif k == "instance" and cell is not None:
+                n = _decl_name(tok, i + 2)
+                cr = lr = None
+                for j in range(i + 2, min(i + 24, len(tok) - 1)):
+                    if tok[j].lower() == "cellref" and cr is None:
+                        cr = tok[j + 1]
+                    if tok[j].lower() == "libraryref" and lr is None:
+                        lr = tok[j + 1]
+                    if tok[j].lower() in ("instance", "net") and j > i + 1:
+                        break
+                if n:
+                    libs[lib.lower()][cell.lower()]["insts"][n.lower()] = ((cr or cell).lower(), (lr or lib).lower())
+        where.append((lib, cell))
+        if x == ")":
+            if cell is not None and depth == cell_d:
+                cell = None
+            if lib is not None and depth == lib_d:
+                lib = None
+            depth -= 1
+    return where, libs
+
+
+def edif_rescope(t, sp, sites, rng=None):
+    """For every reference site a name that IS declared in the file, but in another scope than the one
+    the reference is resolved in: instance of another cell, port of another cell, cell of another library,
+    the other library.  `expect` = "raise" when this scan finds the name undeclared in the applicable
+    scope (the reader must then reject), else "any"."""
+    tok = [t[a:b] for a, b in sp]
+    where, libs = edif_scopes(t, sp)
+    out = []
+    all_insts = sorted({n for L in libs.values() for c in L.values() for n in c["insts"]})
+    all_ports = sorted({n for L in libs.values() for c in L.values() for n in c["ports"]})
+    all_cells = sorted({n for L in libs.values() for n in L})
+    all_libs = sorted(n for n in libs if n)
+    for i in sorted(sites):
+        kind = sites[i]
+        lib, cell = where[i]
+        if lib is None:
+            lib_l = None
+        else:
+            lib_l = lib.lower()
+        cur = tok[i].lower()
+        cands = []
+        if kind == "instanceRef" and cell is not None:
+            here = libs[lib_l][cell.lower()]["insts"]
+            cands = [(n, "raise" if n not in here else "any") for n in all_insts if n != cur]
+        elif kind in ("portRef", "portRef.member") and cell is not None:
+            # owner: the instance named by the instanceRef that follows inside this portRef, else the cell
+            owner = (cell.lower(), lib_l)
+            d = 0
+            for j in range(i, min(i + 12, len(tok) - 1)):
+                if tok[j] == "(":
+                    d += 1
+                    if tok[j + 1].lower() == "instanceref":
+                        owner = libs[lib_l][cell.lower()]["insts"].get(tok[j + 2].lower())
+                        break
+                elif tok[j] == ")":
+                    d -= 1
+                    if d < (0 if kind == "portRef" else -1):
+                        break
+            ports = None
+            if owner is not None:
+                ports = libs.get(owner[1], {}).get(owner[0], {}).get("ports")
+            cands = [(n, "raise" if (ports is not None and n not in ports) else "any") for n in all_ports if n != cur]
+        elif kind == "cellRef" and lib_l is not None:
+            lr = lib_l
+            if i + 3 < len(tok) and tok[i + 1] == "(" and tok[i + 2].lower() == "libraryref":
+                lr = tok[i + 3].lower()
+            inlib = libs.get(lr)
+            cands = [(n, "raise" if (inlib is not None and n not in inlib) else "any") for n in all_cells if n != cur]
+        elif kind == "libraryRef":
+            cands = [(n, "any") for n in all_libs if n != cur]
+        elif kind == "design.cellRef":
+            lr = tok[i + 3].lower() if i + 3 < len(tok) and tok[i + 2].lower() == "libraryref" else None
+            inlib = libs.get(lr) if lr else None
+            cands = [(n, "raise" if (inlib is not None and n not in inlib) else "any") for n in all_cells if n != cur]
+        elif kind == "design.libraryRef":
+            cn = tok[i - 3].lower() if i >= 3 and tok[i - 4].lower() == "cellref" else None
+            cands = [(n, "raise" if (cn and cn not in libs.get(n, {})) else "any") for n in all_libs if n != cur]
+        # prefer the ones that must be rejected; one or two per site
+        cands.sort(key=lambda x: (x[1] != "raise", x[0]))
+        must = [c for c in cands if c[1] == "raise"]
+        pick = must[:2] if must else cands[:1]
+        if rng is not None and len(must) > 2:
+            pick = rng.sample(must, 2)
+        for n, ex in pick:
+            out.append({"kind": "rescope", "pos": i, "ref": kind, "with": n, "expect": ex})
+    return out
+
+
 UNSUPPORTED_AT = {
     # keyword the insertion goes in front of  ->  constructs the reader documents as unsupported there
     "port": ["(portBundle pb)", "(symbol)", "(protectionFrame)", "(arrayRelatedInfo)", "(parameter p)", "(joined)",
@@ -356,49 +531,61 @@ UNSUPPORTED_AT = {
 
 def corruptions(rec, rng=None, sample=None, n_replace=None):
     """All single corruptions of a text record.  `n_replace`: how many of the junk replacements per
-    token (None = all); `sample`: keep a seeded, class-balanced sample of that size."""
+    token (None = all); `sample`: keep a seeded, class-balanced sample of about that size.  Entries with
+    "must" are never sampled away: everything at the FIRST and LAST token (all junk replacements),
+    truncation at 0 and 1; for records flagged "full_refs" also every reference corruption."""
     t = rec["text"]
     fmt = rec["fmt"]
     sp = SPANS[fmt](t)
     n = len(sp)
     out = []
     for i in range(n):
-        out.append({"kind": "truncate", "pos": i})
-        out.append({"kind": "delete", "pos": i})
-        out.append({"kind": "duplicate", "pos": i})
+        edge = i == 0 or i == n - 1
+        out.append({"kind": "truncate", "pos": i, "must": edge or i == 1})
+        out.append({"kind": "delete", "pos": i, "must": edge})
+        out.append({"kind": "duplicate", "pos": i, "must": edge})
         cur = t[sp[i][0]:sp[i][1]]
         junk = [j for j in JUNK[fmt] if j != cur]
-        if n_replace is not None and rng is not None and len(junk) > n_replace:
+        if not edge and n_replace is not None and rng is not None and len(junk) > n_replace:
             junk = rng.sample(junk, n_replace)
         for j in junk:
-            out.append({"kind": "replace", "pos": i, "with": j})
+            out.append({"kind": "replace", "pos": i, "with": j, "must": i == 0})
     if n:
-        out.append({"kind": "truncate", "pos": n})  # = the valid text without trailing blanks
+        out.append({"kind": "truncate", "pos": n, "must": True})  # = the valid text without trailing blanks
     if fmt == "edif":
+        full = bool(rec.get("full_refs"))
         sites = dict(edif_ref_sites(t, sp))
         sites.update(dict(edif_design_sites(t, sp)))
         for i in sorted(sites):
-            out.append({"kind": "retarget", "pos": i, "ref": sites[i], "with": "zz_undeclared"})
+            out.append({"kind": "retarget", "pos": i, "ref": sites[i], "with": "zz_undeclared", "must": full})
             cur = t[sp[i][0]:sp[i][1]]
             if cur.swapcase() != cur:
                 # EDIF identifiers are case-insensitive: still the same reference
-                out.append({"kind": "recase", "pos": i, "ref": sites[i], "with": cur.swapcase()})
+                out.append({"kind": "recase", "pos": i, "ref": sites[i], "with": cur.swapcase(), "must": full})
+        for c in edif_rescope(t, sp, sites, rng):
+            c["must"] = full
+            out.append(c)
         tok = [t[a:b] for a, b in sp]
         for i in range(n - 1):
             if tok[i] == "(" and tok[i + 1].lower() in UNSUPPORTED_AT:
                 for u in UNSUPPORTED_AT[tok[i + 1].lower()]:
                     out.append({"kind": "unsupported", "pos": i, "with": u})
+    for c in out:
+        if not c.get("must"):
+            c.pop("must", None)
     if sample is not None and rng is not None and len(out) > sample:
+        must = [c for c in out if c.get("must")]
+        rest = [c for c in out if not c.get("must")]
         # keep every class represented
         byk = {}
-        for c in out:
+        for c in rest:
             byk.setdefault(c["kind"], []).append(c)
         pick = []
-        per = max(1, sample // len(byk))
+        per = max(1, sample // max(1, len(byk)))
         for k in sorted(byk):
             lst = byk[k]
             pick.extend(rng.sample(lst, min(per, len(lst))))
-        out = pick
+        out = must + pick
     return out
 
 
@@ -409,6 +596,8 @@ def apply(rec, c):
     i = c["pos"]
     if k == "none":
         return t
+    if k == "edge":
+        return c["text"]
     if k == "truncate":
         return t[:sp[i][0]] if i < len(sp) else t[:sp[-1][1]]
     a, b = sp[i]
@@ -416,7 +605,7 @@ def apply(rec, c):
         return t[:a] + t[b:]
     if k == "duplicate":
         return t[:b] + " " + t[a:b] + t[b:]
-    if k in ("replace", "retarget", "recase"):
+    if k in ("replace", "retarget", "recase", "rescope"):
         return t[:a] + c["with"] + t[b:]
     if k == "unsupported":
         return t[:a] + c["with"] + " " + t[a:]
